@@ -38,8 +38,8 @@ class ExpressionTokenTranslator(AbstractTranslator):
 
         if operator:
             if operator.__class__ is AmpersandToken:
-                left_operand = f'str({left_operand})'
-                right_operand = f'str({right_operand})'
+                left_operand = f'self._excel_value_to_string({left_operand})'
+                right_operand = f'self._excel_value_to_string({right_operand})'
 
             # попытка заставить сравнение работать так, как надо
             compare_tokens = (EqOperatorToken, NotEqOperatorToken, GtOperatorToken, GtOrEqualOperatorToken,
